@@ -19,6 +19,10 @@ fn p_mem() -> Proj {
 fn p_full_nor() -> Proj {
     Proj { r: false, ..FULL }
 }
+/// what the interrupt properties constrain: where control goes, the stack, the enable/halt/latch state
+fn p_ctl() -> Proj {
+    Proj { pc: true, sp: true, ctl: true, latch: true, ..NONE }
+}
 
 fn sbox(s: St) -> Cmd {
     Cmd::S(Box::new(s))
@@ -370,7 +374,7 @@ pub fn c06(r: &mut Rng, tier: &str) -> Vec<Case> {
             let mut c = Case::new(format!("{}/e{}t{}", tagof(page, op), which, k % TOPS.len()));
             c.key = tagof(page, op);
             c.push(sbox(s), P_NONE);
-            c.push(Cmd::X, Proj { regs: true, sp: true, pc: true, fmask: 0xD7, ..NONE });
+            c.push(Cmd::X, Proj { regs: true, sp: true, pc: true, ..NONE });
             c.push(Cmd::D, p_mem());
             cases.push(c);
         }
@@ -731,12 +735,14 @@ pub fn c10(r: &mut Rng, tier: &str) -> Vec<Case> {
                 t.poke(pc, &[b0]);
                 let mut c = Case::new(format!("{}/ix{}", tagof(pa, op), cls16(ix)));
                 c.key = tagof(pa, op);
+                // the property is the relation itself, evaluated on the implementation; how each
+                // form behaves on its own is C01-C04's business
                 c.push(sbox(s), P_NONE);
-                let x1 = c.push(Cmd::X, pj);
-                let d1 = c.push(Cmd::D, p_mem());
+                let x1 = c.push(Cmd::X, P_NONE);
+                let d1 = c.push(Cmd::D, P_NONE);
                 c.push(sbox(t), P_NONE);
-                let x2 = c.push(Cmd::X, pj);
-                let d2 = c.push(Cmd::D, p_mem());
+                let x2 = c.push(Cmd::X, P_NONE);
+                let d2 = c.push(Cmd::D, P_NONE);
                 c.rels.push(Rel { a: x1, b: x2, proj: pj, swap_xy: true, what: "FD form = DD form with IX and IY exchanged" });
                 c.rels.push(Rel { a: d1, b: d2, proj: p_mem(), swap_xy: false, what: "same memory effect" });
                 cases.push(c);
@@ -802,10 +808,15 @@ fn ctl_grid(r: &mut Rng, tier: &str, want_nmi: bool, want_halt: Option<bool>) ->
                                     if is_rst { "rst" } else { "x" }
                                 ));
                                 c.key = "ctl".into();
+                                // mode 0 executes the supplied byte as an opcode: the property only speaks
+                                // about the eight RST opcodes there
+                                let outside = im == 0 && iff1 && !nmi && s.int.is_some() && !is_rst;
+                                let pj = if outside { P_NONE } else { p_ctl() };
+                                let pm = if outside { P_NONE } else { p_mem() };
                                 c.push(sbox(s), P_NONE);
-                                c.push(Cmd::X, p_full_nor());
-                                c.push(Cmd::X, p_full_nor());
-                                c.push(Cmd::D, p_mem());
+                                c.push(Cmd::X, pj);
+                                c.push(Cmd::X, pj);
+                                c.push(Cmd::D, pm);
                                 cases.push(c);
                             }
                         }
@@ -912,7 +923,8 @@ fn histories(r: &mut Rng, tier: &str, alphabet: &[&str]) -> Vec<Case> {
                     events.push(None)
                 }
                 "INT" => events.push(Some(Cmd::I(RST_OPS[(si + code.len()) % 8]))),
-                "INTX" => events.push(Some(Cmd::I((si * 7 + code.len() * 13) as u8))),
+                // the mode is dynamic in a history and mode 0 is only specified for the RST opcodes: stay inside them
+                "INTX" => events.push(Some(Cmd::I(RST_OPS[(si * 7 + code.len() * 13) % 8]))),
                 "NMI" => events.push(Some(Cmd::N)),
                 _ => {}
             }
@@ -926,11 +938,11 @@ fn histories(r: &mut Rng, tier: &str, alphabet: &[&str]) -> Vec<Case> {
             if let Some(cmd) = e {
                 c.push(cmd, P_NONE);
             }
-            c.push(Cmd::X, p_full_nor());
+            c.push(Cmd::X, p_ctl());
         }
         // let handlers finish
         for _ in 0..4 {
-            c.push(Cmd::X, p_full_nor());
+            c.push(Cmd::X, p_ctl());
         }
         c.push(Cmd::D, p_mem());
         cases.push(c);
@@ -948,6 +960,14 @@ pub fn c13(r: &mut Rng, tier: &str) -> Vec<Case> {
     let mut v = ctl_grid(r, tier, true, None);
     v.retain(|c| c.tag.contains("n1"));
     v.extend(histories(r, tier, &["NMI", "INT", "EI", "DI", "RETN", "RETI", "LDAI", "NOP"]));
+    // LD A,I / LD A,R expose the shadow in P/V: compare that flag (and A) as well
+    for c in v.iter_mut() {
+        for p in c.projs.iter_mut() {
+            if p.pc {
+                p.fmask = 0x04;
+            }
+        }
+    }
     v
 }
 
@@ -983,9 +1003,9 @@ pub fn c14(r: &mut Rng, tier: &str) -> Vec<Case> {
                         let mut c = Case::new(format!("halt/i{}m{}r{}d{}", iff1 as u8, im, req, idle));
                         c.key = "halt".into();
                         c.push(sbox(s), P_NONE);
-                        c.push(Cmd::X, p_full_nor()); // executes HALT
+                        c.push(Cmd::X, p_ctl()); // executes HALT
                         for _ in 0..idle {
-                            c.push(Cmd::X, p_full_nor());
+                            c.push(Cmd::X, p_ctl());
                         }
                         match req {
                             1 => {
@@ -995,12 +1015,14 @@ pub fn c14(r: &mut Rng, tier: &str) -> Vec<Case> {
                                 c.push(Cmd::I(r.pick(&RST_OPS)), P_NONE);
                             }
                             3 => {
-                                c.push(Cmd::I(r.u8() & 0xFE), P_NONE);
+                                // any byte in modes 1 and 2; mode 0 is specified for the RST opcodes only
+                                let b = if im == 0 { r.pick(&RST_OPS) } else { r.u8() & 0xFE };
+                                c.push(Cmd::I(b), P_NONE);
                             }
                             _ => {}
                         }
                         for _ in 0..4 {
-                            c.push(Cmd::X, p_full_nor());
+                            c.push(Cmd::X, p_ctl());
                         }
                         c.push(Cmd::D, p_mem());
                         cases.push(c);
@@ -1043,11 +1065,11 @@ pub fn c12(r: &mut Rng, tier: &str) -> Vec<Case> {
             let mut c = Case::new(format!("{}/b{:02X}m{}", tagof(page, op), if b & 0xC7 == 0xC7 { 0xC7 } else { b & 1 }, k % 3));
             c.key = tagof(page, op);
             c.push(sbox(t), P_NONE);
-            let x1 = c.push(Cmd::X, pj);
-            let d1 = c.push(Cmd::D, p_mem());
+            let x1 = c.push(Cmd::X, P_NONE);
+            let d1 = c.push(Cmd::D, P_NONE);
             c.push(sbox(s), P_NONE);
-            let x2 = c.push(Cmd::X, pj);
-            let d2 = c.push(Cmd::D, p_mem());
+            let x2 = c.push(Cmd::X, P_NONE);
+            let d2 = c.push(Cmd::D, P_NONE);
             // the property lists registers, flags, memory, stack, PC and T-states; whether a
             // halted CPU keeps the masked request latched is not among them
             let rj = Proj { latch: false, ..pj };
@@ -1084,7 +1106,7 @@ pub fn c15(r: &mut Rng, tier: &str) -> Vec<Case> {
                 let mut c = Case::new(format!("{}/pc{}a{}", tagof(page, op), cls16(pc), (k % 4 == 2) as u8));
                 c.key = tagof(page, op);
                 c.push(sbox(s), P_NONE);
-                c.push(Cmd::DA(pc), p_mem());
+                c.push(Cmd::DA(pc), Proj { other: true, da_size_only: true, ..NONE });
                 c.push(Cmd::X, Proj { pc: true, ..NONE });
                 cases.push(c);
             }
@@ -1144,8 +1166,8 @@ pub fn c17(r: &mut Rng, tier: &str) -> Vec<Case> {
                 t.dbg = [m & 1 != 0, m & 2 != 0, m & 4 != 0, m & 8 != 0];
                 t.scur = if m % 2 == 0 { 0 } else { 12345 };
                 c.push(sbox(t), P_NONE);
-                let x = c.push(Cmd::X, Proj { dbg: 2, ..pj });
-                let d = c.push(Cmd::D, p_mem());
+                let x = c.push(Cmd::X, Proj { dbg: 2, ..NONE });
+                let d = c.push(Cmd::D, P_NONE);
                 xs.push((x, d));
             }
             for w in xs.windows(2) {
@@ -1158,13 +1180,13 @@ pub fn c17(r: &mut Rng, tier: &str) -> Vec<Case> {
             c.push(Cmd::X, P_NONE);
             c.push(Cmd::X, P_NONE);
             c.push(sbox(s.clone()), P_NONE);
-            let x2 = c.push(Cmd::X, pj);
-            let d2 = c.push(Cmd::D, p_mem());
+            let x2 = c.push(Cmd::X, P_NONE);
+            let d2 = c.push(Cmd::D, P_NONE);
             let mut s0 = s.clone();
             s0.dbg = [false; 4];
             c.push(sbox(s0), P_NONE);
-            let x3 = c.push(Cmd::X, pj);
-            let d3 = c.push(Cmd::D, p_mem());
+            let x3 = c.push(Cmd::X, P_NONE);
+            let d3 = c.push(Cmd::D, P_NONE);
             c.rels.push(Rel { a: x2, b: x3, proj: pj, swap_xy: false, what: "outcome independent of earlier history" });
             c.rels.push(Rel { a: d2, b: d3, proj: p_mem(), swap_xy: false, what: "outcome independent of earlier history (memory)" });
             cases.push(c);
@@ -1188,20 +1210,28 @@ pub fn c18(r: &mut Rng, tier: &str) -> Vec<Case> {
         s.scur = if k % 3 == 0 { 0 } else { r.below(s.smax as u64 + 300) as u32 };
         let mut c = Case::new(format!("timed/b{}d{}", s.smax, s.sdur));
         c.key = "timed".into();
-        let pj = Proj { r: false, cyc: false, dbg: 0, slice: true, ..FULL };
+        // sleep presence / bound / counter are judged on the implementation's own T-states (accounting
+        // oracle below); against the model only the bound marker matters
+        let pj = Proj { slice: false, ..NONE };
+        let (smax0, scur0) = (s.smax, s.scur);
         c.push(sbox(s.clone()), P_NONE);
         let mut last_t = 0;
+        let mut tix = vec![];
         for _ in 0..ns {
             last_t = c.push(Cmd::T, pj);
+            tix.push(last_t);
         }
-        let d1 = c.push(Cmd::D, p_mem());
+        let d1 = c.push(Cmd::D, P_NONE);
         // twin: the same program stepped untimed
         c.push(sbox(s), P_NONE);
         let mut last_x = 0;
+        let mut xix = vec![];
         for _ in 0..ns {
             last_x = c.push(Cmd::X, P_NONE);
+            xix.push(last_x);
         }
-        let d2 = c.push(Cmd::D, p_mem());
+        c.acct = Some(Accounting { t: tix, x: xix, smax: smax0, scur: scur0 });
+        let d2 = c.push(Cmd::D, P_NONE);
         let arch = Proj { r: false, cyc: false, dbg: 0, slice: false, ..FULL };
         c.rels.push(Rel { a: last_x, b: last_t, proj: arch, swap_xy: false, what: "timed stepping = plain stepping" });
         c.rels.push(Rel { a: d2, b: d1, proj: p_mem(), swap_xy: false, what: "timed stepping = plain stepping (memory)" });
@@ -1270,11 +1300,11 @@ pub fn c19(r: &mut Rng, tier: &str) -> Vec<Case> {
             let mut c = Case::new(format!("ED:{:02X}/bc{}p{}", rop, if bc < 300 { "s" } else { "l" }, k % 5));
             c.key = format!("ED:{:02X}", rop);
             c.push(sbox(s), P_NONE);
-            let x1 = c.push(Cmd::X, pj);
-            let d1 = c.push(Cmd::D, p_mem());
+            let x1 = c.push(Cmd::X, P_NONE);
+            let d1 = c.push(Cmd::D, P_NONE);
             c.push(sbox(t), P_NONE);
-            let x2 = c.push(Cmd::Singles { pc0: pc, stop_on_z: cmp, max: 70000 }, pj);
-            let d2 = c.push(Cmd::D, p_mem());
+            let x2 = c.push(Cmd::Singles { pc0: pc, stop_on_z: cmp, max: 70000 }, P_NONE);
+            let d2 = c.push(Cmd::D, P_NONE);
             c.rels.push(Rel { a: x1, b: x2, proj: pj, swap_xy: false, what: "repeat form = iterated single form" });
             c.rels.push(Rel { a: d1, b: d2, proj: p_mem(), swap_xy: false, what: "repeat form = iterated single form (memory)" });
             cases.push(c);
